@@ -18,7 +18,7 @@ Definition io_pre (pc : iopc) : bool :=
   match pc with
   | IoRd1 | IoRd2 | IoRd3 | IoRd4 | IoWr1 _ | IoWr2 _ | IoWr3 _ | IoRecv _
   | IoRcvAcq _ | IoRcvWc _ | IoRcvCwf _ | IoRcvApp _ | IoRcvRel _
-  | IoHw1 | IoHw2 | IoTry | IoFlush | IoSubL _ | IoRelX | IoHwExn => true
+  | IoHw1 | IoHw2 | IoHw2b | IoTry | IoFlush | IoSubL _ | IoRelX | IoHwExn => true
   | IoSel r w => r || w
   | _ => false
   end.
